@@ -279,6 +279,10 @@ theorem convCell_ofItem (dt : DType) (it : Item) (h : it.hasType dt = true) :
     | int => cases h
     | str => rfl
 
+/-- an item's own cell is never a fractional float -/
+theorem keepsLabel_ofItem (it : Item) (dt : DType) : keepsLabel (Cell.ofItem it) dt = false := by
+  cases it <;> rfl
+
 /-- the label cells of a row of the exported frame, read column by column and converted -/
 theorem row_labels (dims : DimSet) (hval : ∀ d ∈ dims, d.valid = true) (idx : List Nat)
     (hidx : idx ∈ allIdx (shape dims)) (tail : List Cell) :
@@ -312,6 +316,8 @@ theorem row_labels (dims : DimSet) (hval : ∀ d ∈ dims, d.valid = true) (idx 
     | none => rfl
     | some dt =>
       simp only
+      rw [keepsLabel_ofItem]
+      simp only [Bool.false_eq_true, if_false]
       apply convCell_ofItem
       -- the item is one of the dimension's items, which all have the declared type
       have hv := hval dims[j] (List.getElem_mem hjd)
